@@ -403,6 +403,38 @@ theorem locOk_true (pre : String) (needles : List String) (loc : String) (h : lo
   simp only [locOk, Bool.and_eq_true, Bool.not_eq_true', List.any_eq_false] at h
   exact ⟨h.1, fun n hn => by simpa using h.2 n hn⟩
 
+/-! ### `is_usable_location` -/
+
+/-- an accepted location starts with the prefix, has an accepted scheme and a parsable host that is not loopback /
+    IPv4 link-local -/
+theorem locUsable_true (pre : String) (schemes names : List String) (loc : String)
+    (h : locUsable pre schemes names loc = true) :
+    pre.toList.isPrefixOf loc.toList = true ∧
+    (∃ sc ∈ schemes, (splitScheme (urlClean loc.toList)).1 = sc.toList) ∧
+    ∃ host, (netlocOfUrl loc.toList).bind hostOfNetloc = some host ∧ hostBad names host = false := by
+  simp only [locUsable, Bool.and_eq_true, List.any_eq_true, beq_iff_eq] at h
+  obtain ⟨⟨h1, sc, hsc, he⟩, h3⟩ := h
+  refine ⟨h1, ⟨sc, hsc, he⟩, ?_⟩
+  cases hh : (netlocOfUrl loc.toList).bind hostOfNetloc with
+  | none => rw [hh] at h3; cases h3
+  | some host => rw [hh] at h3; exact ⟨host, rfl, by simpa using h3⟩
+
+/-- a location whose host is loopback or IPv4 link-local is refused, whatever else the URL holds -/
+theorem locUsable_badHost (pre : String) (schemes names : List String) (loc : String) (host : List Char)
+    (hh : (netlocOfUrl loc.toList).bind hostOfNetloc = some host) (hb : hostBad names host = true) :
+    locUsable pre schemes names loc = false := by
+  simp [locUsable, hh, hb]
+
+/-- a location `urlsplit` cannot give a host for (no `//`, unbalanced brackets, a bracketed non-IPv6 host, empty host)
+    is refused -/
+theorem locUsable_noHost (pre : String) (schemes names : List String) (loc : String)
+    (hh : (netlocOfUrl loc.toList).bind hostOfNetloc = none) : locUsable pre schemes names loc = false := by
+  simp [locUsable, hh]
+
+theorem locUsable_prefix (pre : String) (schemes names : List String) (loc : String)
+    (h : pre.toList.isPrefixOf loc.toList = false) : locUsable pre schemes names loc = false := by
+  simp [locUsable, h]
+
 /-! ### `ip_version_from_location` -/
 
 theorem ipVersion_range (loc : String) (v : Nat) (h : ipVersion loc = some v) : v = 4 ∨ v = 6 := by
@@ -628,6 +660,19 @@ theorem ipVersion_v4 (a b c d : Nat) (ha : a < 256) (hb : b < 256) (hc : c < 256
   unfold hostOfNetloc
   simp only [hc1, hc2, bne_self_eq_false, Bool.false_eq_true, if_false, Bool.false_and, hat, hhost, hne,
     isV4_quad a b c d ha hb hc hd, if_true]
+
+/-- every dotted quad in 127/8 or 169.254/16 is a bad host, and so is `::1` written out, and `localhost` -/
+theorem hostBad_v4 (names : List String) (a b c d : Nat) (ha : a < 256) (hb : b < 256) (hc : c < 256) (hd : d < 256)
+    (h : a = 127 ∨ (a = 169 ∧ b = 254)) : hostBad names (quad a b c d) = true := by
+  have hdot : isDigit '.' = false := by decide
+  have hsplit : splitOnC '.' (quad a b c d) = [dec a, dec b, dec c, dec d] := by
+    unfold quad
+    rw [splitOnC_sep _ _ _ (dec_no a '.' hdot), splitOnC_sep _ _ _ (dec_no b '.' hdot),
+      splitOnC_sep _ _ _ (dec_no c '.' hdot), splitOnC_nosep _ _ (dec_no d '.' hdot)]
+  unfold hostBad
+  rw [isV4_quad a b c d ha hb hc hd, hsplit]
+  simp only [List.map_cons, List.map_nil, digitsToNat_dec, Bool.true_and]
+  rcases h with rfl | ⟨rfl, rfl⟩ <;> simp [v4Bad]
 
 /-! #### bracketed IPv6 literals -/
 
@@ -963,8 +1008,7 @@ theorem mkMsg_fields (cfg : Cfg) (kind : Kind) (h : Hdrs String) :
     (mkMsg cfg kind h).ty = truthy (get? h (if kind == .search then "st" else "nt")) ∧
     (mkMsg cfg kind h).loc = truthy (get? h "location") ∧
     (mkMsg cfg kind h).locOk = (match truthy (get? h "location") with
-      | some l => if kind == .search then locOk cfg.searchPrefix cfg.searchNeedles l
-                  else locOk cfg.advPrefix cfg.advNeedles l
+      | some l => locUsable cfg.searchPrefix cfg.schemes cfg.loopbackNames l
       | none => false) ∧
     (tsOf h ≤ cfg.tMax → 0 ≤ (mkMsg cfg kind h).maxAge) ∧ (mkMsg cfg kind h).hdrs = h :=
   ⟨rfl, rfl, rfl, rfl, rfl, fun ht => effMaxAge_nonneg _ _ _ ht, rfl⟩
